@@ -514,6 +514,7 @@ func runC12(t *simrt.Tape, o Opts) Outcome {
 	k := t.Choose(8, "call")
 	after := t.Choose(2, "after") == 1
 	randFail := t.Choose(2, "randfail") == 1
+	shortRead := 0 // > 0: the random source delivers only that many bytes of one read before it fails
 	cfg := schedCfg(t, o, false)
 	var st Stats
 	st.Oracle = map[string]int{}
@@ -536,6 +537,9 @@ func runC12(t *simrt.Tape, o Opts) Outcome {
 			if t.Choose(2, "pair") == 1 {
 				k2 = t.Choose(8, "call2")
 			}
+			if randFail && t.Choose(2, "rand.short") == 1 {
+				shortRead = 1 + t.Choose(7, "rand.short.n")
+			}
 		}
 		rnd := simrt.NewRand(uint64(t.Choose(1<<20, "seed")) + 13)
 		src := make([]byte, size)
@@ -554,7 +558,20 @@ func runC12(t *simrt.Tape, o Opts) Outcome {
 			}
 			if randFail && op == 1 {
 				im.spy.FailAt = -1
-				s.SetRand(simrt.NewRand(7), func(int) error { fired = "rand"; return errRandInjected })
+				if shortRead > 0 {
+					// the source delivers only the first bytes of one read and fails; the next read works
+					failed := false
+					s.SetRand(simrt.NewRand(7), func(n int) error {
+						if failed || shortRead >= n {
+							return nil
+						}
+						failed = true
+						fired = "rand-short"
+						return simrt.ShortRead{N: shortRead, Err: errRandInjected}
+					})
+				} else {
+					s.SetRand(simrt.NewRand(7), func(int) error { fired = "rand"; return errRandInjected })
+				}
 			}
 		}
 		disarm := func() {
@@ -635,6 +652,22 @@ func runC12(t *simrt.Tape, o Opts) Outcome {
 					sec.Close()
 				}
 				return
+			}
+			if err == nil && fired == "rand-short" && size >= 16 {
+				// the secret claims to be random: after an interrupted read of the source it is either
+				// refused or random all the way through, not a few random bytes followed by zeroes
+				count(st.Oracle, "random-secret-after-short-read")
+				var got []byte
+				sec.WithBytes(func(b []byte) error { got = append([]byte(nil), b...); return nil })
+				zeroTail := len(got) == size
+				for _, b := range got[shortRead:] {
+					if b != 0 {
+						zeroTail = false
+					}
+				}
+				if zeroTail {
+					violate("random-secret-mostly-zero/"+im.name, "%s: CreateRandom succeeded after the random source delivered only %d of %d bytes in one read; the secret's remaining %d bytes are all zero", desc(), shortRead, size, size-shortRead)
+				}
 			}
 			if err == nil {
 				// no error although a primitive failed: only acceptable if the secret is fully functional
